@@ -1301,7 +1301,9 @@ func (p *parser) parseCharClassMatcher(chr *charClassMatcher) (any, bool) {
 
 	// try to match in the list of Unicode classes
 	for _, cl := range chr.classes {
-		if unicode.Is(cl, cur) {
+		// a Unicode class cannot be case-folded, so for a case-insensitive
+		// matcher the input rune is tested in its lower, original and upper form
+		if unicode.Is(cl, cur) || (chr.ignoreCase && (unicode.Is(cl, p.pt.rn) || unicode.Is(cl, unicode.ToUpper(p.pt.rn)))) {
 			if chr.inverted {
 				p.failAt(false, start.position, chr.val)
 				return nil, false
